@@ -306,6 +306,15 @@ func genHist(profile string, n int, r *Rng, emit func(Case)) {
 				if r.Intn(8) == 0 {
 					num = den // the radicand 1 (also written k/k)
 				}
+				if r.Intn(5) == 0 {
+					// whole radicands with factors of the base (100 for square roots, 1000 for cube roots)
+					den = 1
+					if kind == "C" {
+						num = 1000 * r.Pick([]int{2, 3, 6, 10, 7})
+					} else {
+						num = 100 * r.Pick([]int{1, 3, 5, 2, 7})
+					}
+				}
 			}
 			raw, rep = []int{num, den}, nil
 			g.length = -1
